@@ -105,9 +105,9 @@ where
     }
 
     fn get(&self, item_idx: usize) -> Option<Idx> {
-        let value = self.range.start + item_idx.into();
-        match value.cmp(&self.range.end) {
-            Ordering::Less => Some(value),
+        // compare indices rather than values: `start + item_idx` might overflow once the counter passes the end
+        match item_idx.cmp(&self.initial_len()) {
+            Ordering::Less => Some(self.range.start + item_idx.into()),
             _ => None,
         }
     }
@@ -119,7 +119,7 @@ where
             .unwrap_or(self.initial_len());
         let begin_value = begin_idx + self.range.start.into();
         let end_value = match begin_value.cmp(&self.range.end.into()) {
-            Ordering::Less => (begin_value + n).min(self.range.end.into()),
+            Ordering::Less => begin_value.saturating_add(n).min(self.range.end.into()),
             _ => begin_value,
         };
         let end_idx: usize = end_value - self.range.start.into();
@@ -243,7 +243,7 @@ where
     /// }
     /// ```
     fn into_seq_iter(self) -> Self::SeqIter {
-        let current = self.counter().current();
+        let current = self.counter().current().min(self.initial_len());
         (self.range.start + current.into())..self.range.end
     }
 
